@@ -35,6 +35,8 @@ def make_adapters(rng, focus, n, side=1, allow_linked=True, named=False, front_o
         name = NAMES[i] + (str(side) if side == 2 else "") if (named or rng.random() < 0.4) else None
         def single(opt, seqs):
             seq = pick(rng, [s for s in seqs if s not in used] or seqs)
+            if rng.random() < 0.04:
+                seq = pick(rng, [s for s in ("G", "AC", "TTG") if s not in used] or ["CA"])      # very short adapters
             used.add(seq)
             restr = rng.choice((None, None, None, "anchor", "ni"))
             if opt == "b":
@@ -134,7 +136,7 @@ def make_read(rng, k, ads, C, side=1):
         if ad.get("linked"):
             f, b = parts
             fo = mutate(rng, f, rng.choice((0, 0, 1))) if rng.random() < 0.8 else ""
-            bo = mutate(rng, b, rng.choice((0, 0, 1)))[: rng.randint(3, len(b))] if rng.random() < 0.7 else ""
+            bo = mutate(rng, b, rng.choice((0, 0, 1)))[: rng.randint(min(3, len(b)), len(b))] if rng.random() < 0.7 else ""
             seq = fo + body + bo + "".join(rng.choice("ACGT") for _ in range(rng.choice((0, 0, 3))))
             if rng.random() < 0.15:
                 seq = f                      # the 5' part is the whole read: nothing is left for the 3' part
@@ -379,7 +381,7 @@ def _random_config(rng, focus, S):
                 and not linked and demux != "combi" and (S.get("pairads") or (not S and p(0.5 if f in ("C05", "C03") else 0.15))):
             C["pairads"] = True
             C["times"] = 1
-        C["error_rate"] = rng.choice((None, None, 0.2, 0.25, 0.1))
+        C["error_rate"] = rng.choice((None, None, 0.2, 0.25, 0.1, None, 0.2, 0))
         C["overlap"] = rng.choice((None, None, 1, 4, 5))
         if f == "C16" and p(0.4):
             C["error_rate"], C["overlap"] = rng.choice((0.5, 0.7)), rng.choice((1, 2))
